@@ -140,7 +140,7 @@ func cmdCheck(args []string) int {
 	}
 	r := &Runner{L: L, solver: *solver, timeoutMs: tmo, workers: *workers, audit: *tier == "thorough", deadline: start.Add(budget)}
 	if *tier != "thorough" {
-		r.jobBudget = 60
+		r.jobBudget = 90
 	}
 	c := &CheckCtx{P: p, Tier: *tier, Seed: seed, L: L, R: r, Extra: map[string]interface{}{}}
 	jobs := p.Jobs(*tier, seed)
